@@ -244,6 +244,10 @@ def one_case(ctx, dialect, override, per_mig, hist, cmd, target, rows, bodies, p
     ctx.hist("settings", "override=%s perMig=%s" % (override, per_mig))
     if "err" in r:
         ctx.hist("impl_error", r["err"])
+        if r["err"] != "commandError":
+            # a refused command (target does not resolve, nothing to downgrade …) is a CommandError and
+            # not this property's business; anything else escaping from script generation is not a refusal
+            ctx.disagree("txn.offline", inp, {"raised": r["err"]}, {"expected": "a script, or CommandError for a refused command"})
         return
     ctx.hist("steps", r["nsteps"])
     ctx.hist("auto_sections", sum(1 for m in r["migs"] for s in m["segs"] if s["kind"] == "auto"))
